@@ -4,6 +4,7 @@ mod c01;
 mod c02;
 mod c03;
 mod c04;
+mod c07;
 mod c11;
 mod c13;
 mod c14;
@@ -48,6 +49,8 @@ fn main() {
         "c04-replay" => c04::replay(rest),
         "c04-observe" => c04::observe(rest),
         "c04-legacy" => c04::legacy(rest),
+        "c07-run" => c07::run(rest),
+        "c12-extra" => c07::extra(rest),
         "c11-replay" => c11::replay(rest),
         "c13-replay" => c13::replay(rest),
         "c13-record" => c13::record(rest),
